@@ -257,6 +257,23 @@ def _coerce(a, b):
     return a, b
 
 
+TIMES = z3.Function("times", REAL, REAL, REAL)
+
+
+def _times(a, b):
+    """product of two terms.  When the active context asks for it (`mul_abstract`, set by harnesses whose claims do not depend on
+    arithmetic facts about products) and neither factor is a numeral, the product is the uninterpreted `times(a, b)`: whatever is proved
+    for an arbitrary binary function holds for multiplication, and the solver is spared nonlinear reasoning."""
+    c = CTX
+    if c is not None and getattr(c, "mul_abstract", False):
+        num = lambda t: z3.is_int_value(t) or z3.is_rational_value(t)
+        if not num(a) and not num(b) and a.sort() in (INT, REAL) and b.sort() in (INT, REAL):
+            ra = z3.ToReal(a) if a.sort() == INT else a
+            rb = z3.ToReal(b) if b.sort() == INT else b
+            return TIMES(ra, rb)
+    return a * b
+
+
 class Sym:
     """a symbolic scalar: wraps a z3 term of sort Int / Real / Bool / String"""
     __slots__ = ("t",)
@@ -283,8 +300,8 @@ class Sym:
     def __radd__(s, o): return s._rbin(o, lambda a, b: a + b)
     def __sub__(s, o): return s._bin(o, lambda a, b: a - b)
     def __rsub__(s, o): return s._rbin(o, lambda a, b: a - b)
-    def __mul__(s, o): return s._bin(o, lambda a, b: a * b)
-    def __rmul__(s, o): return s._rbin(o, lambda a, b: a * b)
+    def __mul__(s, o): return s._bin(o, _times)
+    def __rmul__(s, o): return s._rbin(o, _times)
 
     def __truediv__(s, o):
         a, b = _coerce(s, o)
